@@ -33,6 +33,8 @@ func Main(args []string) int {
 			return checkC05()
 		case "C18atom":
 			return checkC18()
+		case "C03conc":
+			return checkC03()
 		}
 	case "replay":
 		if len(args) < 2 {
@@ -45,7 +47,7 @@ func Main(args []string) int {
 		}
 		return racePass(args[1])
 	}
-	fmt.Fprintln(os.Stderr, "usage: ed check C15|C10conc|C05mon | ed replay <file> | ed racepass <id> | ed worker")
+	fmt.Fprintln(os.Stderr, "usage: ed check C15|C10conc|C05mon|C18atom|C03conc | ed replay <file> | ed racepass <id> | ed worker")
 	return 2
 }
 
@@ -794,6 +796,15 @@ func checkSimple(prop, harness, evName string) int {
 		if tier == "thorough" {
 			levels = append(levels, Bounds{4, 0, 4})
 		}
+	case "C03conc":
+		for _, cf := range c03Configs(tier) {
+			cf := cf
+			jobs = append(jobs, Job{Harness: harness, C03: &cf})
+		}
+		levels = []Bounds{{0, 0, 0}, {1, 0, 1}, {2, 0, 2}, {3, 0, 3}}
+		if tier == "thorough" {
+			levels = append(levels, Bounds{4, 0, 4})
+		}
 	case "C18atom":
 		for _, cf := range c18Configs(tier) {
 			cf := cf
@@ -914,6 +925,12 @@ func simpleAssumptions(h string) []string {
 			"scheduling points: Replica.RLock/Lock (Go's writer preference modelled: a Lock call announces itself first), volume.rmLock, revisionLock; file-system calls between two points run atomically",
 			"the mode a write was applied in is the value of Replica.mode at the moment the write acquired Replica.RLock (recorded by a scheduler hook; SetReplicaMode needs the write lock), so the expected count is exact",
 			"persisted value: read back from the revision.counter block after every execution; close+reopen once per explored subtree (job), not per execution",
+		}
+	case "C03conc":
+		return []string{
+			"the controller harness of C18atom (real controller.Controller with package controller under the scheduler, real *remote.Remote backends, E-B's model replica nodes); memberships: 3 RW, 2 RW of RF 3 (exactly at quorum), 2 RW + 1 WO, RF 2 with 2 RW, RF 1",
+			"oracle inside the stub data path: when the FIRST replica call of a write/sync/unmap operation arrives at a replica, the number of RW entries of the controller's replica list at that moment (not the cached RWReplicaCount) must be >= RF/2+1; the other calls of the same MultiWriterAt fan-out belong to the same admission; an operation refused as read-only must not have reached any replica",
+			"calls are attributed to operations by payload byte (write), offset (unmap), and by being the only sync of the configuration; failing calls fail before being applied on the chosen replica",
 		}
 	case "C18atom":
 		return []string{
